@@ -34,13 +34,21 @@ PY
   else echo "$name: MACHINERY exit $rc: $(grep -m1 -i 'hang\|MACHINERY' "$W/$name.out" | cut -c1-200); $tests"; fi
 }
 
-# 1. emit does not advance start: every token text also contains all earlier text
+# 1. emit does not advance start (EQUIVALENT: every emit is followed by lexSpace, whose ignore() advances start)
 mutant emit-no-advance '		Text: l.input[l.start:l.pos],
 	}
 	l.start = l.pos
 	l.lastTokenType = t' '		Text: l.input[l.start:l.pos],
 	}
 	l.lastTokenType = t'
+# 1b. emit slices from the beginning of the input (token texts overlap)
+mutant emit-from-zero '	l.tokens <- Token{
+		Type: t,
+		Text: l.input[l.start:l.pos],
+	}' '	l.tokens <- Token{
+		Type: t,
+		Text: l.input[:l.pos],
+	}'
 # 2. lexSpace does not drop the whitespace it consumed
 mutant space-not-ignored '	l.backup()
 	l.ignore()
